@@ -1,0 +1,32 @@
+//go:build verif
+
+package store
+
+import "sync/atomic"
+
+// Hooks for the verification harness. Compiled only with the `verif` build tag.
+
+var verifYieldFn atomic.Pointer[func(string)]
+
+// VerifSetYield installs (or, with nil, removes) the function called at instrumented points.
+func VerifSetYield(f func(point string)) {
+	if f == nil {
+		verifYieldFn.Store(nil)
+		return
+	}
+	verifYieldFn.Store(&f)
+}
+
+func verifYield(point string) {
+	if f := verifYieldFn.Load(); f != nil {
+		(*f)(point)
+	}
+}
+
+// VerifSetDeleteParallelThreshold changes the range size from which DeleteRange deletes in
+// parallel and returns the previous value.
+func VerifSetDeleteParallelThreshold(n uint64) uint64 {
+	old := deleteRangeParallelThreshold
+	deleteRangeParallelThreshold = n
+	return old
+}
